@@ -19,7 +19,7 @@ CHECKS = {
 }
 
 EXPL = "explicit-state BFS over API histories of the real generated module (state = dump of all private fields, rebuilt by replay), "
-EXPL_NOTE = "Trusted: the reference semantics on the source AST (refsem.rs + eqlparse.py), the generated glue (textual inclusion, read-only), std collections. Programs are the curated corpus K; bounds (depth, elements, caps hit) are in the evidence."
+EXPL_NOTE = "Trusted: the reference semantics on the source AST (refsem.rs + eqlparse.py), the generated glue (textual inclusion, read-only), std collections. Programs are the curated corpus K (corpus/k) and, for C01-C06, the systematic rule-shape sweep S (corpus/s: every 1- and 2-atom premise shape over a fixed signature, a conclusion pool, premise-equality placements); bounds are deterministic per-theory transition budgets (depth, elements, budgets hit are in the evidence)."
 CHECKS.update({
  "C01": dict(level="model_checking", design="4/C01", engine="models", technique=EXPL + "oracle: naive re-evaluation of the source rules on the closed model",
    text="Every history of new_/insert_/define_/equate_/close calls up to the bound is executed on the code the current compiler generates for each corpus theory; after every close() the dumped model is checked against every control-flow path of every source rule (no match may lack its conclusion) and for single-valued functions, and close() must return within the iteration bound.", note=EXPL_NOTE),
@@ -30,7 +30,7 @@ CHECKS.update({
  "C04": dict(level="model_checking", design="4/C04", engine="models", technique=EXPL + "invariants on public queries and on all private index copies at every return of close/close_until and at every condition evaluation",
    text="In every explored state, right after close()/close_until() and each time close_until evaluates its condition: iterators yield distinct canonical tuples, iter_<type> one representative per class, point queries agree with iterators for all tuples of allocated ids, enum cases agree with constructor graphs; all order copies of an age hold the same set, new and old are disjoint, diagonal copies equal the filtered projection, the union equals the public iterator, every row is listed in the element index of each argument.", note=EXPL_NOTE),
  "C05": dict(level="model_checking", design="4/C05", engine="models", technique=EXPL + "oracle on every transition: driver-side union-find and tuple sets",
-   text="On every transition of the search the return value and the visible effect of the API call are compared with a reference kept by the driver: are_equal_ is exactly the last closed state's equality plus the equate_ calls since, root_ is an idempotent representative, and (while no equate_ happened since the last close) inserted tuples are visible once, define_ returns the existing value or a fresh id, new_ a fresh distinct id.", note=EXPL_NOTE),
+   text="On every transition of the search the return value and the visible effect of the API call are compared with a reference kept by the driver: are_equal_ is exactly the last closed state's equality plus the equate_ calls since, root_ is an idempotent representative, and (while no equate_ happened since the last close) inserted tuples are visible once, define_ returns the existing value or a fresh id, new_ a fresh distinct id. The union-find itself (eqlog_runtime::Unification) is searched to a fixpoint: every reachable parent vector over <=6 (quick) / <=7 (thorough) elements under root / union_roots_into / increase_size_to against a plain partition.", note=EXPL_NOTE),
  "C06": dict(level="model_checking", design="4/C06", engine="models", technique=EXPL + "liveness made checkable by counting iterations through the close_until condition; id counters before/after",
    text="For every corpus theory without `!` and every explored history, close() must return within an iteration bound no correct surjective closure can reach, allocate no element id and not increase the number of classes of any type.", note=EXPL_NOTE),
  "C07": dict(level="model_checking", design="4/C07", engine="models", technique=EXPL + "alphabet extended with close_until(cond) for a finite family of conditions incl. stop-at-k-th-evaluation; oracles: contract, homomorphism into the chase, resumption",
@@ -38,7 +38,7 @@ CHECKS.update({
  "C15": dict(level="model_checking", design="4/C15", engine="models", technique=EXPL + "with new_<enum>(case) in the alphabet; oracle on every enum element of every closed state",
    text="For the corpus theories with enums, in every closed state every enum element (iterated or handed out) destructures without panic into a constructor application that evaluates back to it, and new_<enum>(case) results list the case. Static half: scan of the generated API for define_/new_ functions that could create enum elements without a constructor.", note=EXPL_NOTE),
  "C17": dict(level="model_checking", design="4/C17", engine="models", technique=EXPL + "on theories with a model declaration; oracles of C01/C02/C03 with built-in inheritance rules",
-   text="For the corpus theories with a model declaration, histories create objects, morphisms, dom/cod, member facts and closes in every order (acyclic morphism graphs only); the closed model must satisfy all rules including inheritance along morphisms, be the reference chase, and not depend on whether morphisms arrived before or after facts and closes.", note=EXPL_NOTE),
+   text="For the corpus theories with a model declaration (member predicates and functions over global and over member types, morphism application, rules inside the model), histories create objects, morphisms, dom/cod, members, morphism applications, member facts and closes in every order (acyclic morphism graphs, dependently well-typed inputs), from start states without and with a morphism chain already in place; the closed model must satisfy all rules including inheritance along morphisms with member-typed components replaced by their images, be the reference chase, and not depend on whether morphisms arrived before or after facts and closes.", note=EXPL_NOTE),
 })
 
 CHECKS.update({
@@ -57,7 +57,7 @@ CHECKS.update({
 })
 
 CHECKS.update({
- "C12": dict(level="fault_enumeration", design="4/C12", engine="c12 (python driver, LD_PRELOAD injector, stand-in rustc)", technique="explicit-state search over (source version, directory content) states with the real eqlog binary as transition function; every crash point / torn write / failing rustc of every build enumerated, deviation-bounded; oracle: byte equality with a clean build, zero mutations on a no-op build",
+ "C12": dict(level="fault_enumeration", design="4/C12", engine="c12 (python driver, LD_PRELOAD injector, stand-in rustc)", technique="explicit-state search over (source version, directory content) states with the real eqlog binary as transition function; every crash point / torn write / failing rustc of every build enumerated (crash points of builds that delete files under seven directory-listing orders), deviation-bounded; oracle: byte equality with a clean build, zero mutations on a no-op build",
    text="From the empty directory, all states reachable by edits between four source versions and builds are explored to a fixpoint; then every build from every such state is killed before each of its file-system mutations, torn in the middle of each write, or run with rustc failing for each component (1 deviation quick, up to 2-3 thorough), and the result is closed again under edits and builds. After every build that reports success the output and component directories must equal a clean build of the current version byte for byte, and a second build must perform zero file-system mutations (observed by the injector, not by mtimes). Module and component mode.",
    note="Trusted: the LD_PRELOAD injector (validated against strace at every run), the stand-in rustc (library = function of the source). RAYON_NUM_THREADS=1; simultaneous half-built components are not enumerated."),
 })
@@ -70,7 +70,7 @@ CHECKS.update({
    text="Each corpus program is compiled under 5 (quick) / 7 (thorough) configurations in both build modes; the module, every component source and every digest must be byte-identical across configurations, and the LD_PRELOAD record of the component build must show each component's files written by a single task. The interleavings of the rayon bridge are not enumerated (stated limit); configurations are.",
    note="Trusted: the injector's record. Not explored: the schedules of the parallel bridge beyond thread-count variation."),
  "C19": dict(level="exploration", design="4/C19", engine="cli_sweeps + models", technique="static: textual comparison of environment structs, imported/exported symbols and rule code between module build and component build for every corpus program; dynamic: the BFS-explored API histories run against a harness linked with the real component libraries and against the module harness, transcripts compared",
-   text="For every corpus program both build types are produced from the same source and compared: every environment struct declared in the module equals the declaration in its component, the link names the module imports are exactly the no_mangle symbols the components export, the component source occurs verbatim in the single-file module. For the corpus theories a second harness is linked against the component libraries compiled by the real rustc; every explored history must give identical ids, return values and iterator outputs in both.",
+   text="For every corpus program both build types are produced from the same source and compared: every environment struct declared in the module equals the declaration in its component, the link names the module imports are exactly the no_mangle symbols the components export, the component source occurs verbatim in the single-file module, and with the embedded rule modules removed the single-file module is the same text as the module of the component build (same struct, same environment construction, same order of rule calls in close_until). For the corpus theories a second harness is linked against the component libraries compiled by the real rustc; every explored history must give identical ids, return values and iterator outputs in both.",
    note="Trusted: rustc/linker. Histories are those of the explorer at the reported depth."),
 })
 
@@ -116,8 +116,8 @@ def main():
         },
         "engines": [
             {"name": "models", "path": "/verif/engine/models", "serves_properties": ["C01", "C02", "C03", "C04", "C05", "C06", "C07", "C15", "C16", "C17", "C20"],
-             "kind_free_text": "Rust harness compiled together with the modules the current eqlog compiler generates for the corpus; level-synchronous BFS over API histories with replay, reference semantics in refsem.rs"},
-            {"name": "containers", "path": "/verif/engine/containers", "serves_properties": ["C08", "C14", "C18"],
+             "kind_free_text": "Rust harness (explorer, oracles, reference semantics in refsem.rs) linked with library crates (engine/gen/*) that contain the modules the current eqlog compiler generates for the corpus plus generated glue; level-synchronous BFS over API histories with replay; engine/shards/s0..s7 are the same sources linked against the eight shards of corpus S"},
+            {"name": "containers", "path": "/verif/engine/containers", "serves_properties": ["C05", "C08", "C14", "C18"],
              "kind_free_text": "Rust harness linked against /repo/eqlog-runtime: explicit-state BFS over the real containers / exhaustive input enumeration"},
         ],
         "checks": checks,
